@@ -11,6 +11,10 @@ pub fn c10_create() {
     let r = sym::u8() as u32;
     let s = sym::u8() as u32;
     sym::assume(r <= 13 && s <= 4);
+    let (r0, s0) = (sym::u8() as usize, sym::u8() as usize);
+    sym::assume(r0 <= 13 && s0 <= 4);
+    // priming call on an unrelated arbitrary input: a memo / cache in front of a pure function would show here
+    let _ = <CKCNumber as PokerCard>::create(RANKS[r0], SUITS[s0]);
     let got = <CKCNumber as PokerCard>::create(RANKS[r as usize], SUITS[s as usize]);
     if r <= 12 && s <= 3 {
         check!(got == word(r, s), "create(rank, suit) is the layout word");
@@ -64,6 +68,9 @@ pub fn c10_accessors() {
 /// all 2^32 words: the filter passes exactly the 52 layout words
 #[cfg_attr(kani, kani::proof)]
 pub fn c10_filter() {
+    let w0 = sym::u32();
+    // priming call on an unrelated arbitrary input: a memo / cache in front of a pure function would show here
+    let _ = CardNumber::filter(w0);
     let w = sym::u32();
     let expect = if is_card(w) { w } else { 0 };
     check!(CardNumber::filter(w) == expect, "CardNumber::filter passes exactly the cards");
